@@ -659,9 +659,11 @@ impl DfaCache {
         // Sort by character
         range_chars.sort_by_key(|&(ch, _)| ch);
         
-        // Group consecutive identical characters
+        // Group consecutive identical characters. Suffixes that end at this depth have no
+        // next character; they sort first in the range, so the first group starts after them.
+        let ended = hi.min(suffix_array.len()) - lo - range_chars.len();
         let mut current_char = range_chars[0].0;
-        let mut current_start = lo;
+        let mut current_start = lo + ended;
         let mut i = 0;
         
         for (ch, _pos) in range_chars.iter() {
